@@ -417,7 +417,7 @@ impl Real {
     }
 }
 
-/// Run `f` in a forked child (3 s alarm, 2 GiB address space) and bring its JSON result back.
+/// Run `f` in a forked child (20 s CPU limit, 180 s wall-clock backstop, 2 GiB address space) and bring its JSON result back.
 fn isolated(f: impl FnOnce() -> Value) -> std::result::Result<Value, String> {
     unsafe {
         let mut fds = [0i32; 2];
@@ -432,7 +432,11 @@ fn isolated(f: impl FnOnce() -> Value) -> std::result::Result<Value, String> {
             libc::close(fds[0]);
             let lim = libc::rlimit { rlim_cur: 2 << 30, rlim_max: 2 << 30 };
             libc::setrlimit(libc::RLIMIT_AS, &lim);
-            libc::alarm(3);
+            // a busy hang is cut by CPU time (independent of machine load); the wall-clock alarm is only a
+            // backstop for a sleeping hang and is generous because checks may run on a saturated machine
+            let cpu = libc::rlimit { rlim_cur: 20, rlim_max: 20 };
+            libc::setrlimit(libc::RLIMIT_CPU, &cpu);
+            libc::alarm(180);
             let out = match hx_common::catch(f) {
                 Ok(v) => v.to_string(),
                 Err(_) => "\"panic\"".to_string(),
